@@ -158,6 +158,17 @@ func (c *Checker) Finish(coverage map[string]interface{}, assumptions []string) 
 			known++
 			fmt.Printf("KNOWN-FINDING: property=%s %s [fp=%s]\n", c.Property, f.text, fp)
 			knownList = append(knownList, fp)
+			// keep the witness replayable (not a VIOLATION: no line printed)
+			dir := filepath.Join(Root(), "replays", c.Property, "known")
+			os.MkdirAll(dir, 0o755)
+			name := unsafeRe.ReplaceAllString(fp, "_")
+			if len(name) > 120 {
+				name = name[:120]
+			}
+			js, _ := json.MarshalIndent(map[string]interface{}{
+				"property": c.Property, "fingerprint": fp, "what": v.What, "count": v.Count, "replay": v.Replay, "known_finding": f.text,
+			}, "", " ")
+			os.WriteFile(filepath.Join(dir, name+".json"), js, 0o644)
 			continue
 		}
 		unlisted++
